@@ -68,3 +68,101 @@ Example C16_lookup_example :
   end.
 Proof. exact lookup_exact_example. Qed.
 Print Assumptions C16_lookup_example.
+
+(* ================================================================== C16 x C01: the CDB backend down to the file bytes
+   (Model/ComposeMore.v, Proofs/LinkCdbBytes.v).
+   C01_file_level_cdb (Properties/C01.v) serves from ANY store that gives, for a key, its values in the order of the
+   Put sequence; C16_serialize_read says the byte-level reader on the written file returns exactly these.  Composed:
+   [serve_fn b g] is Model/Serve's handler over the label-by-label reader with the store interface replaced by a
+   function g : key -> rows (same text as LookupV1 / Serve.reader_v1 with [get st] replaced by g;
+   C16_serve_fn_is_serve); [cdb_get H data] is the CDB driver's ForEach on a file image: FindStart / FindNext until
+   EOF of the byte-level reader [bfind_all H data].  Vocabulary of C01_file_level: [wf_file], [side_ok], [records]
+   (C07's record stream), [compile_cdb] (the Put sequence kvs), [declared_file], [loc_okb], [wf_view], [wf_name],
+   [response_refines] (the conclusion of C01_response_is_spec, C01_response_refines_meaning). *)
+From Coq Require Import Permutation.
+From DnsV Require Import Model.Store Model.LookupV1 Model.Serve Spec.Answer Spec.Rows Spec.MapOfLists Spec.Declared.
+From DnsV Require Import Proofs.Compile Proofs.ZoneCut Proofs.FileLevel Proofs.FileLevelExample.
+From DnsV Require Import Model.Compile Proofs.Batch Proofs.CompilePipe.
+From DnsV Require Import Model.ComposeMore Proofs.LinkCdbBytes Proofs.LinkCdbBytesExample.
+
+(* C16_served_from_cdb_bytes.  For a well-formed data file f, any Put stream the CDB compiler produces (a permutation
+   of C07's records; C07_cdb_lossless), the file image img the writer builds from it under ANY hash H < 2^32 (so
+   every collision pattern), and a client located in L: the handler whose reads are the byte-level reader on
+   [serialize img] answers every wire-valid query as Spec/Answer.spec_response prescribes for the records the file
+   DECLARES.  Guards: those of C01_file_level_cdb, file size < 2^32 (fits32) *)
+Theorem C16_served_from_cdb_bytes : forall o serial nornet accum feature f,
+  wf_file o serial f = true -> side_ok accum feature f ->
+  forall stream kvs (H : bytes -> N) img L,
+  Permutation stream (records bytes (conv_line o serial nornet false) accum feature f) ->
+  compile_cdb bytes (conv_line o serial nornet false) f stream = Ok kvs ->
+  (forall k, H k < 4294967296) -> Spec.Cdb.fits32 kvs -> Model.Cdb.write H kvs = Ok img ->
+  loc_okb L = true -> wf_view L (declared_file o serial f) = true ->
+  forall q n ecs max x, wf_name n -> nlen (pack n) <= 255 -> lower_bytes (q_name q) = pack n ->
+  (q_edns q = None \/ q_edns q = Some 0) ->
+  serve_fn CDB (cdb_get H (Model.Cdb.serialize img)) q (LocOk L) ecs max = OReply x ->
+  response_refines L (declared_file o serial f) n q ecs max x.
+Proof. exact served_from_cdb_bytes. Qed.
+Print Assumptions C16_served_from_cdb_bytes.
+
+(* the adapters.  (1) the handler over a function that agrees with a store's [get] is Model/Serve's handler over
+   that store; over the store's own [get] by computation *)
+Theorem C16_serve_fn_is_serve : forall b g st, b <> RDB2 -> (forall k, g k = get st k) ->
+  forall q locr ecs max, serve_fn b g q locr ecs max = serve b st q locr ecs max.
+Proof. exact serve_fn_store. Qed.
+Print Assumptions C16_serve_fn_is_serve.
+
+(* (2) the driver's ForEach on the written file returns the values put under the key, in Put order *)
+Theorem C16_cdb_get_written : forall (H : bytes -> N) kvs img,
+  (forall k, H k < 4294967296) -> Spec.Cdb.fits32 kvs -> Model.Cdb.write H kvs = Ok img ->
+  forall k, cdb_get H (Model.Cdb.serialize img) k = vals_of k kvs.
+Proof. exact cdb_get_written. Qed.
+Print Assumptions C16_cdb_get_written.
+
+(* (3) through Model/Serve's own store interface: the Model/Store.store obtained by reading every written key back
+   from the image (each key once) IS the per-key value sequences store C01_file_level_cdb asks for
+   (cf. C01_store_of_rows), for every key - written or not *)
+Theorem C16_store_of_image_rows : forall (H : bytes -> N) kvs img,
+  (forall k, H k < 4294967296) -> Spec.Cdb.fits32 kvs -> Model.Cdb.write H kvs = Ok img ->
+  (forall k, get (store_of_image H (Model.Cdb.serialize img) (map fst kvs)) k = vals_of k kvs) /\
+  NoDup (map fst (store_of_image H (Model.Cdb.serialize img) (map fst kvs))).
+Proof. intros H kvs img HH Hf Hw. exact (conj (store_of_image_rows H kvs img HH Hf Hw) (store_of_image_nodup H _ _)). Qed.
+Print Assumptions C16_store_of_image_rows.
+
+Theorem C16_served_from_cdb_image_store : forall o serial nornet accum feature f,
+  wf_file o serial f = true -> side_ok accum feature f ->
+  forall stream kvs (H : bytes -> N) img L,
+  Permutation stream (records bytes (conv_line o serial nornet false) accum feature f) ->
+  compile_cdb bytes (conv_line o serial nornet false) f stream = Ok kvs ->
+  (forall k, H k < 4294967296) -> Spec.Cdb.fits32 kvs -> Model.Cdb.write H kvs = Ok img ->
+  loc_okb L = true -> wf_view L (declared_file o serial f) = true ->
+  forall q n ecs max x, wf_name n -> nlen (pack n) <= 255 -> lower_bytes (q_name q) = pack n ->
+  (q_edns q = None \/ q_edns q = Some 0) ->
+  serve CDB (store_of_image H (Model.Cdb.serialize img) (map fst kvs)) q (LocOk L) ecs max = OReply x ->
+  response_refines L (declared_file o serial f) n q ecs max x.
+Proof. exact served_from_cdb_image_store. Qed.
+Print Assumptions C16_served_from_cdb_image_store.
+
+(* non-vacuity: the data file of C01_file_level_example, its reversed Put stream of 11 pairs, written with the real
+   cdb hash into an image of 2679 bytes (= file_size); TXT Foo.example.com and A www.example.com (location ab) are
+   answered from the BYTES as C01_file_level_example shows for the abstract store; and the general statement holds
+   for this image *)
+Example C16_served_from_cdb_bytes_example :
+  compile_cdb bytes (conv_line x_o 7 false false) x_file y_stream = Ok y_stream /\
+  Spec.Cdb.fits32 y_stream /\
+  exists img, Model.Cdb.write y_hash y_stream = Ok img /\ Model.Cdb.serialize img = y_data /\
+    nlen y_data = 2679 /\ Spec.Cdb.file_size y_stream = 2679 /\ length y_stream = 11%nat /\
+    serve_fn CDB (cdb_get y_hash y_data) x_q1 (LocOk x_L) None 1 =
+      OReply (mkResp 1 (Some (q_name x_q1, 16, 1)) 0 true
+                [IRR (mkRR (q_name x_q1) 16 1 120 [5; 104; 101; 108; 108; 111])] [] [] None) /\
+    serve_fn CDB (cdb_get y_hash y_data) x_q2 (LocOk x_L) None 1 =
+      OReply (mkResp 2 (Some (q_name x_q2, 1, 1)) 0 true
+                [IPick (q_name x_q2) 1 1 [(300, 1, [10; 0; 0; 2])] 1] [] [] None) /\
+    serve CDB (store_of_image y_hash y_data (map fst y_stream)) x_q2 (LocOk x_L) None 1 =
+      OReply (mkResp 2 (Some (q_name x_q2, 1, 1)) 0 true
+                [IPick (q_name x_q2) 1 1 [(300, 1, [10; 0; 0; 2])] 1] [] [] None) /\
+    forall q n ecs max x, wf_name n -> nlen (pack n) <= 255 -> lower_bytes (q_name q) = pack n ->
+      (q_edns q = None \/ q_edns q = Some 0) ->
+      serve_fn CDB (cdb_get y_hash (Model.Cdb.serialize img)) q (LocOk x_L) ecs max = OReply x ->
+      response_refines x_L x_recs n q ecs max x.
+Proof. exact cdb_bytes_example. Qed.
+Print Assumptions C16_served_from_cdb_bytes_example.
